@@ -906,6 +906,10 @@ func runC01(c *caseWriter) (string, bool, map[string]int) {
 		"<a {{if .F}}title{{end}}{{if .T}}{{end}}=\"{{.A}}\">k</a>", "<a {{if .T}}title{{else}}alt{{end}}{{if .F}}{{end}}=\"{{.A}}\">k</a>", "<a {{if .F}}title{{else}}onclick{{end}}{{if .F}}{{end}}=\"{{.A}}\">k</a>",
 		"{{if .T}}<script{{else}}<div{{end}}{{if .T}} {{end}}>{{.A}}</script>", "{{if .F}}<b{{else}}<i{{end}}{{if .T}} {{end}}title=\"{{.A}}\">k", "<a href=\"{{if .T}}{{else}}java{{end}}{{.A}}\">k</a>",
 		"<a href=\"{{if .F}}{{else}}/p/{{end}}{{.A}}\">k</a>", "<a title=\"{{if .F}}{{else}}x{{end}}{{.A}}\">k</a>",
+		// noscript: an ordinary element for a user agent without scripting - actions in its tags must be treated as in
+		// any other tag (judged under both readings)
+		"<noscript><a {{.A}}>k</a></noscript>", "<noscript><img alt={{.A}}></noscript><p>k</p>", "<NoScript><a href=\"{{.U}}\" title='{{.A}}'>{{.B}}</a></NoScript>",
+		"<noscript><b {{.A}}=\"x\">k</b></noscript>", "<p>k</p><noscript><i class={{.B}}>k</i>",
 		// D43 on the name of a special element (thorough-tier case placement#224393, kept as a directed one): the
 		// engine reads <STYLE>, the tokenizer <STYLEx>, whose content is markup
 		"Hello, World<STYLE{{with .A}}x{{end}}>a>b{}<!--</STYLE >{{.S}}<nav >k<li></li></nav>", "<title{{if .T}}x{{end}}><!--</title>{{.A}}<b>k</b>",
